@@ -422,6 +422,75 @@ Ltac break_match_hyp H :=
          | context [if ?x then _ else _] => destruct x eqn:?; try discriminate H
          end.
 
+(* total length of the buffers of the first k elements *)
+Fixpoint elems_len (l : list node) (k : nat) : Z :=
+  match k, l with
+  | S k', e :: r => zlen (node_buf e) + elems_len r k'
+  | _, _ => 0
+  end.
+Definition total_len (l : list node) : Z := elems_len l (length l).
+
+Lemma elems_len_app_exact a b : elems_len (a ++ b) (length a) = total_len a.
+Proof. unfold total_len. induction a as [|x r IH]; cbn; [destruct b; reflexivity | rewrite IH; reflexivity]. Qed.
+
+Lemma total_len_nonneg l : 0 <= total_len l.
+Proof. unfold total_len. induction l as [|x r IH]; cbn; [lia | pose proof (zlen_nonneg (node_buf x)); lia]. Qed.
+
+Lemma copy_elems_app fb off a b :
+  copy_elems fb off (a ++ b) = (do b1 <- copy_elems fb off a; copy_elems b1 (off + total_len a) b).
+Proof.
+  revert fb off. induction a as [|x r IH]; intros fb off.
+  - cbn [app copy_elems bind]. unfold total_len. cbn. rewrite Z.add_0_r. reflexivity.
+  - cbn [app copy_elems]. destruct (zlen fb <? off + zlen (node_buf x)); [reflexivity|].
+    rewrite IH. unfold total_len. cbn [length elems_len]. fold (total_len r).
+    replace (off + zlen (node_buf x) + total_len r) with (off + (zlen (node_buf x) + total_len r)) by lia.
+    reflexivity.
+Qed.
+
+Lemma copy_elems_len : forall l fb off b, 0 <= off -> copy_elems fb off l = Ok b -> zlen b = zlen fb.
+Proof.
+  induction l as [|x r IH]; intros fb off b Hoff H; cbn [copy_elems] in H.
+  - inversion H; reflexivity.
+  - destruct (zlen fb <? off + zlen (node_buf x)) eqn:E; [discriminate|].
+    pose proof (zlen_nonneg (node_buf x)).
+    rewrite (IH _ (off + zlen (node_buf x)) _ ltac:(lia) H). apply zlen_splice; lia.
+Qed.
+
+Lemma nth_error_splice_mid off d b i : 0 <= off -> off + zlen d <= zlen b ->
+  off <= Z.of_nat i < off + zlen d ->
+  nth_error (splice off d b) i = nth_error d (i - Z.to_nat off).
+Proof.
+  intros H1 H2 Hi. unfold splice.
+  assert (L1 : length (zfirstn off b) = Z.to_nat off).
+  { unfold zfirstn; rewrite firstn_length; unfold zlen in *; lia. }
+  rewrite nth_error_app2 by (rewrite L1; lia). rewrite L1.
+  rewrite nth_error_app1 by (unfold zlen in *; lia). reflexivity.
+Qed.
+
+Definition agree_outside (lo hi : Z) (a b : bytes) : Prop :=
+  forall i : nat, (Z.of_nat i < lo \/ hi <= Z.of_nat i) -> nth_error a i = nth_error b i.
+
+Lemma copy_elems_agree lo hi : forall l fb1 fb2 off b1 b2,
+  zlen fb1 = zlen fb2 -> 0 <= off -> hi <= off -> agree_outside lo hi fb1 fb2 ->
+  copy_elems fb1 off l = Ok b1 -> copy_elems fb2 off l = Ok b2 -> agree_outside lo hi b1 b2.
+Proof.
+  induction l as [|x r IH]; intros fb1 fb2 off b1 b2 Hl Hoff Hhi Ha H1 H2; cbn [copy_elems] in H1, H2.
+  - inversion H1; inversion H2; subst. exact Ha.
+  - destruct (zlen fb1 <? off + zlen (node_buf x)) eqn:E1; [discriminate|].
+    destruct (zlen fb2 <? off + zlen (node_buf x)) eqn:E2; [discriminate|].
+    pose proof (zlen_nonneg (node_buf x)) as Hx.
+    assert (Hl' : zlen (splice off (node_buf x) fb1) = zlen (splice off (node_buf x) fb2))
+      by (rewrite !zlen_splice by lia; exact Hl).
+    assert (Ha' : agree_outside lo hi (splice off (node_buf x) fb1) (splice off (node_buf x) fb2)).
+    { unfold agree_outside in *. intros i Hi.
+      destruct (Z_lt_dec (Z.of_nat i) off) as [Hlo | Hge].
+      - rewrite !nth_error_splice_lo by lia. apply Ha. exact Hi.
+      - destruct (Z_lt_dec (Z.of_nat i) (off + zlen (node_buf x))) as [Hmid | Hhi2].
+        + rewrite !nth_error_splice_mid by lia. reflexivity.
+        + rewrite !nth_error_splice_hi by lia. apply Ha. exact Hi. }
+    exact (IH _ _ (off + zlen (node_buf x)) b1 b2 Hl' ltac:(lia) ltac:(lia) Ha' H1 H2).
+Qed.
+
 Section Outside.
 Variable enc : Z -> bytes -> option bytes.
 Variable s2u : bytes -> bytes.
@@ -518,75 +587,6 @@ Lemma asm_elems_v_pol l st l' st' : fst st <> 240 ->
 Proof.
   intros Hp. apply asm_elems_v_pol_of; auto.
   apply Forall_forall. intros n _. apply asm_v_pol.
-Qed.
-
-(* total length of the buffers of the first k elements *)
-Fixpoint elems_len (l : list node) (k : nat) : Z :=
-  match k, l with
-  | S k', e :: r => zlen (node_buf e) + elems_len r k'
-  | _, _ => 0
-  end.
-Definition total_len (l : list node) : Z := elems_len l (length l).
-
-Lemma elems_len_app_exact a b : elems_len (a ++ b) (length a) = total_len a.
-Proof. unfold total_len. induction a as [|x r IH]; cbn; [destruct b; reflexivity | rewrite IH; reflexivity]. Qed.
-
-Lemma total_len_nonneg l : 0 <= total_len l.
-Proof. unfold total_len. induction l as [|x r IH]; cbn; [lia | pose proof (zlen_nonneg (node_buf x)); lia]. Qed.
-
-Lemma copy_elems_app fb off a b :
-  copy_elems fb off (a ++ b) = (do b1 <- copy_elems fb off a; copy_elems b1 (off + total_len a) b).
-Proof.
-  revert fb off. induction a as [|x r IH]; intros fb off.
-  - cbn [app copy_elems bind]. unfold total_len. cbn. rewrite Z.add_0_r. reflexivity.
-  - cbn [app copy_elems]. destruct (zlen fb <? off + zlen (node_buf x)); [reflexivity|].
-    rewrite IH. unfold total_len. cbn [length elems_len]. fold (total_len r).
-    replace (off + zlen (node_buf x) + total_len r) with (off + (zlen (node_buf x) + total_len r)) by lia.
-    reflexivity.
-Qed.
-
-Lemma copy_elems_len : forall l fb off b, 0 <= off -> copy_elems fb off l = Ok b -> zlen b = zlen fb.
-Proof.
-  induction l as [|x r IH]; intros fb off b Hoff H; cbn [copy_elems] in H.
-  - inversion H; reflexivity.
-  - destruct (zlen fb <? off + zlen (node_buf x)) eqn:E; [discriminate|].
-    pose proof (zlen_nonneg (node_buf x)).
-    rewrite (IH _ (off + zlen (node_buf x)) _ ltac:(lia) H). apply zlen_splice; lia.
-Qed.
-
-Lemma nth_error_splice_mid off d b i : 0 <= off -> off + zlen d <= zlen b ->
-  off <= Z.of_nat i < off + zlen d ->
-  nth_error (splice off d b) i = nth_error d (i - Z.to_nat off).
-Proof.
-  intros H1 H2 Hi. unfold splice.
-  assert (L1 : length (zfirstn off b) = Z.to_nat off).
-  { unfold zfirstn; rewrite firstn_length; unfold zlen in *; lia. }
-  rewrite nth_error_app2 by (rewrite L1; lia). rewrite L1.
-  rewrite nth_error_app1 by (unfold zlen in *; lia). reflexivity.
-Qed.
-
-Definition agree_outside (lo hi : Z) (a b : bytes) : Prop :=
-  forall i : nat, (Z.of_nat i < lo \/ hi <= Z.of_nat i) -> nth_error a i = nth_error b i.
-
-Lemma copy_elems_agree lo hi : forall l fb1 fb2 off b1 b2,
-  zlen fb1 = zlen fb2 -> 0 <= off -> hi <= off -> agree_outside lo hi fb1 fb2 ->
-  copy_elems fb1 off l = Ok b1 -> copy_elems fb2 off l = Ok b2 -> agree_outside lo hi b1 b2.
-Proof.
-  induction l as [|x r IH]; intros fb1 fb2 off b1 b2 Hl Hoff Hhi Ha H1 H2; cbn [copy_elems] in H1, H2.
-  - inversion H1; inversion H2; subst. exact Ha.
-  - destruct (zlen fb1 <? off + zlen (node_buf x)) eqn:E1; [discriminate|].
-    destruct (zlen fb2 <? off + zlen (node_buf x)) eqn:E2; [discriminate|].
-    pose proof (zlen_nonneg (node_buf x)) as Hx.
-    assert (Hl' : zlen (splice off (node_buf x) fb1) = zlen (splice off (node_buf x) fb2))
-      by (rewrite !zlen_splice by lia; exact Hl).
-    assert (Ha' : agree_outside lo hi (splice off (node_buf x) fb1) (splice off (node_buf x) fb2)).
-    { unfold agree_outside in *. intros i Hi.
-      destruct (Z_lt_dec (Z.of_nat i) off) as [Hlo | Hge].
-      - rewrite !nth_error_splice_lo by lia. apply Ha. exact Hi.
-      - destruct (Z_lt_dec (Z.of_nat i) (off + zlen (node_buf x))) as [Hmid | Hhi2].
-        + rewrite !nth_error_splice_mid by lia. reflexivity.
-        + rewrite !nth_error_splice_hi by lia. apply Ha. exact Hi. }
-    exact (IH _ _ (off + zlen (node_buf x)) b1 b2 Hl' ltac:(lia) ltac:(lia) Ha' H1 H2).
 Qed.
 
 (* the assembled form of the element [x] that follows [l1] *)
